@@ -185,6 +185,8 @@ def build_bun(ift, b, d):
     if k == "expand":        # ContractionOperator(...).adjoint: n pixels -> n*m pixels, not square
         big = ift.DomainTuple.make(tuple(d) + (ift.UnstructuredDomain(b[1]),))
         return ift.ContractionOperator(big, len(d)).adjoint
+    if k == "fftshift":      # FFTShiftOperator: an invertible, non-symmetric permutation for odd lengths
+        return ift.FFTShiftOperator(d)
     if k == "mask":          # MaskOperator: n pixels -> fewer pixels
         return ift.MaskOperator(ift.Field.from_raw(d, np.array(b[1], dtype=bool).reshape(d.shape)))
     raise ValueError(k)
@@ -222,6 +224,8 @@ def gen_leaf(rng, n, good=True):
 
 def gen_bun(rng, n):
     r = int(rng.integers(6))
+    if n == 3 and rng.integers(3) == 0:
+        return ["fftshift"]
     if r == 0 and n in INV_MATS:
         m = INV_MATS[n][int(rng.integers(len(INV_MATS[n])))][0]
         return ["matrix", m]
@@ -295,6 +299,19 @@ def gen_case(rng):
             s = ["inverse", s]
         return {"n": a * b, "spec": s, "inv": bool(rng.integers(2))}
     n = int(rng.integers(1, 4))
+    if rng.integers(8) == 0:
+        # the main use of SamplingEnabler: inverse draws of likelihood + prior through the solver
+        fl = [bool(rng.integers(2)) for _ in range(n)]
+        if all(fl):
+            fl[0] = False
+        m = n - sum(fl)
+        lik = ["sandwich", ["mask", fl], ["diag", [VARS[int(rng.integers(len(VARS)))] for _ in range(m)], None, DTC[0]], None]
+        prior = ["diag", [VARS[int(rng.integers(len(VARS)))] for _ in range(n)], None, DTC[0]]
+        return {"n": n, "spec": ["sampen", lik, prior, int(rng.integers(2))], "inv": True}
+    if rng.integers(10) == 0:
+        # inverse draw through an invertible, non-symmetric bun
+        ch = ["diag", [VARS[int(rng.integers(len(VARS)))] for _ in range(3)], None, DTC[0]]
+        return {"n": 3, "spec": ["sandwich", ["fftshift"], ch, None], "inv": True}
     return {"n": n, "spec": gen_spec(rng, n, int(rng.integers(0, 3)), good), "inv": bool(rng.integers(2))}
 
 
@@ -358,6 +375,17 @@ def cfr(x):
     return "(q (%d) %d)" % (x.numerator, x.denominator)
 
 
+def exact_sqrt(v):
+    """True when v is the square of a rational whose numerator and denominator the model can root exactly"""
+    import math
+    if not np.isfinite(v):
+        return False
+    if v <= 0:
+        return True
+    fr = Fraction(float(v))
+    return math.isqrt(fr.numerator) ** 2 == fr.numerator and math.isqrt(fr.denominator) ** 2 == fr.denominator
+
+
 def read(ift, op):
     """model term of an operator object (structure of the object, not of the expression that built it)"""
     from nifty.cl.operators.operator_adapter import OperatorAdapter
@@ -365,9 +393,13 @@ def read(ift, op):
     t = type(op).__name__
     if isinstance(op, ift.ScalingOperator):
         c = complex(op._factor)
+        if not exact_sqrt(c.real):
+            raise Unreadable("variance is not a square (e.g. a simplified sum): direct oracle only")
         return "(CScal Qc %s %s %s)" % (cq(c.real), "true" if c.imag != 0 else "false", cdt(op._dtype))
     if isinstance(op, ift.DiagonalOperator):
         ld = np.broadcast_to(np.asarray(op._ldiag.asnumpy() if hasattr(op._ldiag, "asnumpy") else op._ldiag), op.domain.shape).reshape(-1)
+        if not all(exact_sqrt(complex(v).real) for v in ld):
+            raise Unreadable("variance is not a square (e.g. a simplified sum): direct oracle only")
         return "(CDiag Qc (vec_of %s) %s %d %s)" % (cl([cq(complex(v).real) for v in ld]), "true" if op._complex else "false",
                                                      int(op._trafo), cdt(op._dtype))
     if isinstance(op, ift.SandwichOperator):
@@ -427,7 +459,7 @@ def expect_ok(s, inv):
         if b[0] == "scalbun":
             return ch_ok
         if inv:
-            return b[0] == "diagbun" and ch_ok
+            return b[0] in ("diagbun", "fftshift") and ch_ok
         return ch_ok
     if k == "sum":
         return (not inv) and all(expect_ok(o, False) for o in s[1])
